@@ -216,7 +216,10 @@ class SpawnProcess(multiprocessing.context.SpawnProcess):
                 msg = os.strerror(exitcode)
                 if exitcode == 9:
                     msg += ': possibly out of memory'
-                raise OSError(exitcode, msg) from exc
+                # Do not raise here: the future must be resolved, otherwise `wait` and
+                # `as_completed` hang on this process and `exception` raises instead of returning.
+                error = OSError(exitcode, msg)
+                error.__cause__ = exc
 
         self._logger_queue_.put(None)
         self._result_and_error_.close()
